@@ -278,6 +278,11 @@ fn model_batch(ctx: &mut Ctx, runs: &[(Vec<u8>, usize, Vec<Op>, Config, bool)], 
     let answers = model::ask(&lines);
     for (i, (f, v, ops, cfg, dom)) in runs.iter().enumerate() {
         ctx.rep.model_compared += 1;
+        if model::outside_domain(&answers[i]) {
+            // the executable model declined (cost guard) or timed out: not compared, never counted as agreement
+            ctx.rep.model_gaps += 1;
+            continue;
+        }
         if !rops::agree(&answers[i], &traces[i]) {
             if *dom {
                 ctx.rep.violation("model", &format!("reader-model/{}", class), &format!("Reader model `{}` vs implementation `{}`", cut(&answers[i]), cut(&traces[i].text())), case(f, *v, ops, cfg));
@@ -1086,7 +1091,7 @@ pub fn replay(prop: &str, ctx: &mut Ctx, c: &J) {
     println!("model:          {}", ans[0]);
     if t.panicked {
         ctx.rep.violation("oracle", "panic/replay", &t.tokens.last().cloned().unwrap_or_default(), c.clone());
-    } else if !rops::agree(&ans[0], &t) {
+    } else if !model::outside_domain(&ans[0]) && !rops::agree(&ans[0], &t) {
         ctx.rep.violation("model", &format!("reader-model/{}", prop), &format!("model `{}` vs implementation `{}`", cut(&ans[0]), cut(&t.text())), c.clone());
     }
     if prop == "C13" {
